@@ -5,17 +5,20 @@
   What is proved about the model of `Expression`:
     * footprints: `set` / `append` / `replace` / `pop` write only (i) `_hash` along the parent chain of the node they are
       called on, (ii) that node's `args`, (iii) the pointer fields of inserted nodes and of old occupants of the slot;
-      `hash()` / `==` write only `_hash` fields; `copy()` writes only fresh cells;
+      `hash()` / `==` write only `_hash` fields;
     * the frame theorem: a region closed under parent pointers and children is never left by an edit made inside it,
       so editing one of two disjoint trees leaves every cell of the other (args, pointers AND caches) unchanged;
-    * `copy` leaves every existing cell unchanged and returns a fresh root (`copy_original_untouched`).
-  `copy_equal_disjoint` is proved in this PARTIAL form (`…_partial`): disjointness and untouched original are theorems;
-  that the copy's abstraction equals the original's and that the copied region is closed is tied by the
-  model-vs-implementation correspondence (dump of every cell after `copy`) and the real-code oracle, not proved.
-  NOT modelled: the generator / optimizer / diff / lineage code paths — the theorem is parametric in them ("a callee
-  that only applies these primitives inside the copy's region"), and that premise is what the write monitor checks.
+    * `copy_equal_disjoint` for the REAL iterative `__deepcopy__`: the copy's abstraction (`shape`: classes, arg keys in
+      dict order, scalars, list order — no ids, pointers or caches) equals the original's, the original keeps its own
+      abstraction and every one of its cells, the two node sets are disjoint, and the new cells form a region;
+    * `transform(fun, copy=True)` leaves every pre-existing cell untouched (frame corollary), for a user function that
+      works inside the copy.
+  NOT modelled: the generator / optimizer / diff / lineage code paths — the frame theorem is parametric in them ("a callee
+  that only applies these primitives inside the copy's region"), and that premise is what the write monitor checks;
+  the deep copies of `comments`, `_type`, `_meta`.
 -/
-import SqlglotModel.Proofs.TreeFrame
+import SqlglotModel.Proofs.TreeCopyShape
+import SqlglotModel.Proofs.TreeWalk
 import SqlglotModel.Generated.C09
 
 namespace SqlglotModel.Properties.C09
@@ -47,11 +50,6 @@ theorem hash_touches_only_caches (F : HashFns H) (fuel : Nat) (h h' : Heap H) (n
 /-- `a == b` changes nothing but `_hash` fields -/
 theorem eq_touches_only_caches [DecidableEq H] (F : HashFns H) (fuel : Nat) (h h' : Heap H) (a b : Id) (r : Bool)
     (hI : Inv F h) (he : opEq F fuel h a b = some (h', r)) : HashOnly h h' := (inv_opEq F hI he).2
-
-/-- a region: closed under parent pointers and under stored children -/
-structure Region (h : Heap H) (R : Id → Prop) : Prop where
-  up : UpClosed h R
-  down : ∀ p k j c, R p → Stored h p k j c → R c
 
 /-- THE FRAME THEOREM for `set`: an edit made inside a region (target and inserted nodes in it) writes no cell
     outside it — neither args, nor pointers, nor hash caches. -/
@@ -91,29 +89,38 @@ theorem frame_pop (fuel : Nat) (h h' : Heap H) (R : Id → Prop) (hR : Region h 
     (he : opPop fuel h self = some h') (m : Id) (hm : ¬ R m) : h' m = h m :=
   frame_replace fuel h h' R hR self .none hs (fun c hc => by simp [itemOfValue] at hc) he m hm
 
-/-- `copy()` writes only fresh cells: every existing cell (below `base`) is unchanged — the original keeps its
-    args, pointers and caches — and the root of the copy is a fresh id, hence a node the original does not contain. -/
-theorem copy_original_untouched (fuel : Nat) (h h' : Heap H) (n : Id) (base nx : Nat) (c : Id)
-    (he : opCopy fuel h n base = some (h', nx, c)) :
-    (∀ m, m < base → h' m = h m) ∧ base ≤ c ∧ nx > c := copyNode_frame fuel h base n h' nx c he
+/-- **`copy_equal_disjoint`** for the iterative `__deepcopy__`: a copy has the same abstraction as the original, the
+    original keeps its abstraction, and the two trees share no node (the copy's nodes are exactly new cells). -/
+theorem copy_equal_disjoint (F : HashFns H) (fuel fuel' : Nat) (h h' : Heap H) (n c : Id) (base nx : Nat)
+    (hI : Inv F h) (hf : FreshFrom h base) (hn : base > n) (he : opDeepcopy fuel h n base = some (h', nx, c)) :
+    shape fuel' h' c = shape fuel' h n ∧ shape fuel' h' n = shape fuel' h n ∧
+    (∀ m, Reach h' c m → ¬ Reach h' n m) := by
+  obtain ⟨s1, s2⟩ := deepcopy_shape hI hf hn he fuel'
+  obtain ⟨d1, d2⟩ := deepcopy_disjoint hI hf hn he
+  refine ⟨s1, s2, ?_⟩
+  intro m hc hn'
+  have a := d1 m hc
+  have b := d2 m hn'
+  omega
 
-/-- partial form of `copy_equal_disjoint`: no node of the original (ids below `base`) is written, the copy's root is
-    not one of them, and (cache clause) a `_hash` carried over to the copy's root is the original's. -/
-theorem copy_equal_disjoint_partial (fuel : Nat) (h h' : Heap H) (n : Id) (base nx : Nat) (c : Id) (hn : n < base)
-    (he : opCopy fuel h n base = some (h', nx, c)) :
-    h' n = h n ∧ c ≠ n ∧ (h' c).cls = (h n).cls ∧ (h' c).raw = (h n).raw ∧ (h' c).parent = none := by
-  obtain ⟨f, g1, g2⟩ := copy_original_untouched fuel h h' n base nx c he
-  refine ⟨f n hn, ?_, ?_⟩
-  · intro e; rw [e] at g1; exact Nat.lt_irrefl _ (Nat.lt_of_lt_of_le hn g1)
-  · cases fuel with
-    | zero => simp [opCopy, copyNode] at he
-    | succ f' =>
-      simp only [opCopy, copyNode] at he
-      split at he
-      · cases he
-      · simp only [Option.some.injEq, Prod.mk.injEq] at he
-        obtain ⟨e1, _, e3⟩ := he; subst e1; subst e3
-        simp
+/-- `copy()` writes only fresh cells: every existing cell keeps its args, pointers and caches; the copy's root is the
+    first fresh cell, and the new cells are closed under parent pointers and children (a region: so by `frame_*` later
+    edits of the copy never touch the original, and edits of the original never touch the copy) -/
+theorem copy_original_untouched (F : HashFns H) (fuel : Nat) (h h' : Heap H) (n c : Id) (base nx : Nat)
+    (hI : Inv F h) (hf : FreshFrom h base) (hn : base > n) (he : opDeepcopy fuel h n base = some (h', nx, c)) :
+    (∀ m, m < base → h' m = h m) ∧ c = base ∧ Region h' (fun m => base ≤ m) := by
+  obtain ⟨_, _, a, b, c', _⟩ := deepcopy_spec hI hf hn he
+  exact ⟨a, c', b⟩
+
+/-- `transform(fun, copy=True)` — the default — leaves the argument untouched: every cell that existed before the call
+    is unchanged (structure, pointers and caches), and the invariant holds afterwards; for any user function that works
+    inside the copy (`TransformFr`) and hands back admissible values (`TransformAdm`). -/
+theorem transform_copy_pure (F : HashFns H) (fuel : Nat) (fn : UserFun H) (h h' : Heap H) (base nx' : Nat) (root : Id)
+    (r : Value) (hI : Inv F h) (hf : FreshFrom h base) (hn : base > root)
+    (hfn : ∀ h1 nx1 c, opDeepcopy fuel h root base = some (h1, nx1, c) →
+      TransformFr (fun m => base ≤ m) fuel fn h1 nx1 c ∧ TransformAdm F fuel fn h1 nx1 c)
+    (he : opTransformCopy fuel fn h base root = some (h', nx', r)) :
+    (∀ m, m < base → h' m = h m) ∧ Inv F h' := opTransformCopy_pure F hI hf hn hfn he
 
 /-- the copy defaults the property rests on, re-extracted (ast) from the source on every run: `Generator.generate`
     copies its argument by default before preprocessing/printing, `Expression.sql(copy=True)`, `transform` copies when
@@ -124,19 +131,21 @@ theorem generated_copy_defaults_ok :
     SqlglotModel.Generated.C09.sqlCopiesByDefault = true ∧
     SqlglotModel.Generated.C09.transformCopiesWhenAsked = true ∧
     SqlglotModel.Generated.C09.optimizeCopiesInput = true ∧
-    SqlglotModel.Generated.C09.deepcopyCarriesHashBeforeArgs = true := by decide
+    SqlglotModel.Generated.C09.deepcopyCarriesHashBeforeArgs = true ∧
+    SqlglotModel.Generated.C09.deepcopyUsesSetAndAppend = true := by decide
 
 /-! ### non-vacuity -/
 
 /-- the whole id space is a region; so is the empty set -/
 example (h : Heap H) : Region h (fun _ => True) := ⟨fun _ _ _ _ => trivial, fun _ _ _ _ _ _ => trivial⟩
 
-/-- a concrete copy in the model: Paren(this=Literal) copied into fresh cells 2,3 -/
+/-- a concrete copy in the model: Paren(this=Literal) copied into the fresh cells 2, 3; the Literal's carried hash stays -/
 def demo : List Op :=
   [.new 0 "paren" false, .new 1 "literal" true, .set 1 "this" (.leaf (.str "1")) none true,
    .set 0 "this" (.node 1) none true, .hash 0]
 
-example : ((run freeHash 8 empty demo).bind (fun h => opCopy 8 h 0 2)).map (fun r => (r.2.1, r.2.2)) = some (4, 2) := by
-  decide +kernel
+example : ((run freeHash 8 empty demo).bind (fun h => opDeepcopy 8 h 0 2)).map
+    (fun r => (r.2.1, r.2.2, (r.1 2).hash.isNone, (r.1 3).hash.isSome, (r.1 0).hash.isSome)) =
+    some (4, 2, true, true, true) := by decide +kernel
 
 end SqlglotModel.Properties.C09
